@@ -137,8 +137,6 @@ def candidates(doc, kind):
             elif kind == 'bad-time' and present and n.usage != 'N' and t == 'TM' and lo <= 4 <= hi:
                 out.append((i, ei, ci))
             elif kind == 'required-removed' and present and n.usage == 'R' and (ei + 1) not in _syntax_positions(doc.segs[i].node):
-                if comp_parent is not None and ci == 0 and comp_parent.usage != 'R':
-                    continue
                 if comp_parent is not None and sum(1 for x in doc.segs[i].vals[ei] if x != '') <= 1:
                     continue    # would empty the composite: a different fault
                 out.append((i, ei, ci))
